@@ -218,3 +218,32 @@ Proof.
     + apply update_untouched; exact Hun.
     + intros kv Hkv. unfold env_save in Hkv. apply in_map_iff in Hkv as (kv0 & <- & Hin). cbn. apply Hun; exact Hin.
 Qed.
+
+(* several modules: the key comes from the first module (in configuration order) in which the look-up finds one; an error in an earlier module stops the search *)
+Theorem get_p11_key_first_module ms : forall i label public hh k,
+  get_p11_key_from i ms label public hh = OK (Some k) ->
+  exists pre m post, ms = pre ++ m :: post /\
+    (forall j m', nth_error pre j = Some m' -> find_key_by_label (i + Z.of_nat j) m' label (if public then CKO_PUBLIC else CKO_PRIVATE) hh = OK None) /\
+    find_key_by_label (i + Z.of_nat (length pre)) m label (if public then CKO_PUBLIC else CKO_PRIVATE) hh = OK (Some k).
+Proof.
+  induction ms as [|m t IH]; intros i label public hh k H; cbn [get_p11_key_from] in H; [discriminate H|].
+  apply bind_ok_inv in H as (r & Hr & H). destruct r as [k0|].
+  - injection H as <-. exists [], m, t. split; [reflexivity|]. split; [intros j m' Hj; destruct j; discriminate Hj|].
+    cbn [length]. rewrite Z.add_0_r. exact Hr.
+  - destruct (IH (i + 1) label public hh k H) as (pre & m1 & post & -> & Hpre & Hm). exists (m :: pre), m1, post. split; [reflexivity|]. split.
+    + intros j m' Hj. destruct j as [|j]; cbn [nth_error] in Hj.
+      * injection Hj as <-. rewrite Z.add_0_r. exact Hr.
+      * specialize (Hpre j m' Hj). replace (i + Z.of_nat (S j)) with (i + 1 + Z.of_nat j) by lia. exact Hpre.
+    + cbn [length]. replace (i + Z.of_nat (S (length pre))) with (i + 1 + Z.of_nat (length pre)) by lia. exact Hm.
+Qed.
+
+Theorem get_p11_key_none ms : forall i label public hh,
+  get_p11_key_from i ms label public hh = OK None ->
+  forall j m', nth_error ms j = Some m' -> find_key_by_label (i + Z.of_nat j) m' label (if public then CKO_PUBLIC else CKO_PRIVATE) hh = OK None.
+Proof.
+  induction ms as [|m t IH]; intros i label public hh H j m' Hj; [destruct j; discriminate Hj|]. cbn [get_p11_key_from] in H.
+  apply bind_ok_inv in H as (r & Hr & H). destruct r as [k0|]; [discriminate H|].
+  destruct j as [|j]; cbn [nth_error] in Hj.
+  - injection Hj as <-. rewrite Z.add_0_r. exact Hr.
+  - specialize (IH (i + 1) label public hh H j m' Hj). replace (i + Z.of_nat (S j)) with (i + 1 + Z.of_nat j) by lia. exact IH.
+Qed.
